@@ -19,6 +19,67 @@ pub struct Case {
     pub codec: Codec,
     pub win: Option<WinSpec>,
     pub bs: u64,
+    /// (src, dst) record indices (monotone maps of u16 onto the record list): record dst is given the creation time
+    /// of record src (record header FILETIME and its copy in the record's binary XML), so that equal creation times
+    /// occur next to each other, across chunk boundaries and far apart
+    #[serde(default)]
+    pub retime: Vec<(u16, u16)>,
+}
+
+/// (file offset, size, creation FILETIME) of every record, in file order
+pub fn evtx_records(buf: &[u8]) -> Vec<(usize, usize, u64)> {
+    let rd32 = |o: usize| u32::from_le_bytes(buf[o..o + 4].try_into().unwrap()) as usize;
+    let rd64 = |o: usize| u64::from_le_bytes(buf[o..o + 8].try_into().unwrap());
+    let mut v = vec![];
+    let mut off = 4096;
+    while off + 65536 <= buf.len() {
+        if &buf[off..off + 8] == b"ElfChnk\0" {
+            let free = rd32(off + 48);
+            let mut p = 512;
+            while p + 24 <= free.min(65536) {
+                if rd32(off + p) != 0x0000_2a2a {
+                    break;
+                }
+                let sz = rd32(off + p + 4);
+                if sz < 24 || p + sz > 65536 {
+                    break;
+                }
+                v.push((off + p, sz, rd64(off + p + 16)));
+                p += sz;
+            }
+        }
+        off += 65536;
+    }
+    v
+}
+
+/// apply the `retime` list; pairs whose target does not hold its FILETIME exactly twice are skipped
+pub fn evtx_retime(data: &mut Vec<u8>, retime: &[(u16, u16)]) -> usize {
+    let mut applied = 0;
+    for (a, b) in retime {
+        let recs = evtx_records(data);
+        if recs.len() < 2 {
+            return applied;
+        }
+        let ia = (*a as usize * recs.len()) >> 16;
+        let ib = (*b as usize * recs.len()) >> 16;
+        if ia == ib {
+            continue;
+        }
+        let (o, sz, ft_old) = recs[ib];
+        let ft_new = recs[ia].2;
+        let old = ft_old.to_le_bytes();
+        let body = &data[o..o + sz];
+        let pos: Vec<usize> = (0..sz - 7).filter(|&i| body[i..i + 8] == old).collect();
+        if pos.len() != 2 || ft_new == ft_old {
+            continue;
+        }
+        for i in pos {
+            data[o + i..o + i + 8].copy_from_slice(&ft_new.to_le_bytes());
+        }
+        applied += 1;
+    }
+    applied
 }
 
 /// independent listing with the evtx crate, single threaded: (EventRecordID, timestamp ns) in file order
@@ -45,7 +106,7 @@ impl Property for C10 {
         "C10"
     }
     fn rule(&self) -> String {
-        "input space = the 2 shipped .evtx files (one stores its records out of time order, one has no events) x container (plain and generated gz/bz2/xz/lz4/tar) x windows placed relative to the actual record times (on a record time, +-1us, between, before, after, A=B) x block size. oracle: an independent single-threaded listing with the evtx crate gives (EventRecordID, creation time) in file order; expected print order = that list stable-sorted by creation time and filtered A<=t<=B; from s4's stdout (sentinel separator) the EventRecordID and TimeCreated of every printed record are extracted and compared as a sequence. non-trivial = the file stores >=1 inversion and (window cuts or container != plain or a bound on a record time); distinct = hash(case).".into()
+        "input space = the 2 shipped .evtx files (one stores its records out of time order, one has no events), two thirds of the cases with 1..7 records given the creation time of another record (neighbour, across a chunk boundary, or far away; header FILETIME and its copy in the binary XML) so that equal creation times occur x container (plain and generated gz/bz2/xz/lz4/tar) x windows placed relative to the actual record times (on a record time, +-1us, between, before, after, A=B) x block size. oracle: an independent single-threaded listing with the evtx crate gives (EventRecordID, creation time) in file order; expected print order = that list stable-sorted by creation time and filtered A<=t<=B; from s4's stdout (sentinel separator) the EventRecordID and TimeCreated of every printed record are extracted and compared as a sequence. non-trivial = the file stores >=1 inversion and (window cuts or container != plain or a bound on a record time); distinct = hash(case).".into()
     }
     fn assumptions(&self) -> Vec<String> {
         vec!["only the shipped .evtx files are available (no evtx writer installed)".into(), "the evtx crate (single-threaded) is the independent reader".into()]
@@ -54,22 +115,30 @@ impl Property for C10 {
         tier.pick(1500, 20000)
     }
     fn strategy(&self, _tier: Tier) -> BoxedStrategy<Case> {
-        (prop_oneof![8 => Just(0u8), 1 => Just(1u8)], any_codec_or_plain(), win_spec_or_none(), prop_oneof![1 => 64u64..5000, 2 => Just(65536u64)])
-            .prop_map(|(which, codec, win, bs)| Case { which, codec, win, bs })
+        // neighbours (dst = src + a step of one record or so), chunk-boundary neighbours and far pairs arise from the same map
+        let pair = prop_oneof![
+            3 => (any::<u16>(), 1u16..600).prop_map(|(a, d)| (a, a.saturating_add(d))),
+            2 => (any::<u16>(), any::<u16>()),
+        ];
+        let retime = prop_oneof![1 => Just(vec![]), 2 => prop::collection::vec(pair, 1..8)];
+        (prop_oneof![8 => Just(0u8), 1 => Just(1u8)], any_codec_or_plain(), win_spec_or_none(), prop_oneof![1 => 64u64..5000, 2 => Just(65536u64)], retime)
+            .prop_map(|(which, codec, win, bs, retime)| Case { which, codec, win, bs, retime })
             .boxed()
     }
     fn exec(&self, case: &Case, _ctx: &Ctx) -> Outcome {
         let rel = EVTX_FILES[case.which as usize % EVTX_FILES.len()];
         let src = repo_logs().join(rel);
-        let listing = match dump(&src) {
-            Ok(l) => l,
-            Err(e) => return Outcome::inconclusive(format!("evtx crate cannot list {}: {}", rel, e)),
-        };
-        let data = match std::fs::read(&src) {
+        let mut data = match std::fs::read(&src) {
             Ok(d) => d,
             Err(e) => return Outcome::inconclusive(e.to_string()),
         };
         let sc = Scratch::new();
+        let retimed = evtx_retime(&mut data, &case.retime);
+        let listed = sc.write("listed.evtx", &data);
+        let listing = match dump(&listed) {
+            Ok(l) => l,
+            Err(e) => return Outcome::inconclusive(format!("evtx crate cannot list {}: {}", rel, e)),
+        };
         let f = match wrap(&case.codec, &data, &sc.dir, "a.evtx", "a.evtx") {
             Ok(f) => f,
             Err(e) => return Outcome::inconclusive(e),
@@ -156,6 +225,9 @@ impl Property for C10 {
         };
         if ties {
             o = o.class("equal-times-present");
+        }
+        if retimed > 0 {
+            o = o.class("records-retimed");
         }
         o.with_sample(json!({"file": rel, "records": listing.len(), "inversions_in_file": inversions, "codec": case.codec.kind(), "window": w.args(), "printed": got.len()}))
     }
